@@ -184,3 +184,16 @@ Theorem range_initial_stream :
     = take (r_end - r_start) (drop (N.min r_start (nlen data)) data).
 Proof. exact rng_initial. Qed.
 Print Assumptions range_initial_stream.
+
+(* ZeroCopyReader: for every history of read / read_exact / peek / zc_ensure / zc_read+advance /
+   read_optimized / skip_bytes operations without an error outcome, every capacity and every short-read
+   behaviour of the inner reader, the chunks returned (and skipped) concatenate to the inner stream *)
+Theorem zc_reads_concat :
+  forall (data : list N) (chunk z_cap : N)
+         (ops : list (N * Z)) (st : zc) (os : list obs) (st' : zc),
+    forallb (fun p => zc_streaming (fst p)) ops = true ->
+    run_ops (zc_op data chunk z_cap) ops st = (os, st') -> ~ In OErr os ->
+    exists chs, explains ops os chs /\
+                zc_stream data st = concat chs ++ zc_stream data st'.
+Proof. exact zc_reads_concat_proof. Qed.
+Print Assumptions zc_reads_concat.
